@@ -43,20 +43,23 @@ HANG_S = 3.0          # per sequence (a 40 step sequence normally needs millisec
 
 @contextlib.contextmanager
 def deadline(seconds):
-    """Raise core.Watchdog (a BaseException) in the main thread after ``seconds``."""
+    """Raise core.Watchdog (a BaseException) in the main thread after ``seconds`` of process CPU time."""
     if threading.current_thread() is not threading.main_thread() or not hasattr(signal, "setitimer"):
         yield
         return
 
+    # the budget is CPU time of this process (ITIMER_PROF), not wall-clock time: a code path that does not return burns
+    # CPU and trips it, while a worker that is merely starved or swapped out on a loaded machine does not (a hang verdict
+    # must not depend on the load); the wall-clock backstop is the shard timeout of the worker, which is inconclusive
     def onalarm(signum, frame):
-        raise Watchdog("deadline %.1fs" % seconds)
-    old = signal.signal(signal.SIGALRM, onalarm)
-    signal.setitimer(signal.ITIMER_REAL, seconds)
+        raise Watchdog("deadline %.1fs of cpu time" % seconds)
+    old = signal.signal(signal.SIGPROF, onalarm)
+    signal.setitimer(signal.ITIMER_PROF, seconds)
     try:
         yield
     finally:
-        signal.setitimer(signal.ITIMER_REAL, 0)
-        signal.signal(signal.SIGALRM, old)
+        signal.setitimer(signal.ITIMER_PROF, 0)
+        signal.signal(signal.SIGPROF, old)
 
 _B62 = "0123456789ABCDEFGHIJKLMNOPQRSTUVWXYZabcdefghijklmnopqrstuvwxyz"
 
